@@ -304,6 +304,8 @@ func (fr *Frame) applySpecClosure(spec *FuncSpec, key string, sig *types.Signatu
 		}
 		if fr.trustsPre(key) {
 			fc.assumes["precondition of "+key+" assumed at its call sites in "+funcKey(fr.fn)+" (trustpre): "+cl.Text] = true
+		} else if preProvedByOtherCheck(cl, fc) { // ext_propfilter.go
+			fc.assumes["precondition of "+key+" at its call sites in "+funcKey(fc.root)+" is an obligation of check "+strings.Join(cl.Props, ",")+", not of this run: "+cl.Text] = true
 		} else {
 			fc.oblige(fr, "pre", key+":"+label, g, t, pos, cl.Text, fr.props())
 		}
@@ -632,6 +634,7 @@ func (fr *Frame) builtin(in ssa.Instruction, b *ssa.Builtin, c *ssa.CallCommon, 
 		case *types.Map:
 			l := fc.define(fr.prefix+"maplen", "Int", ite(eq(a.t, nilPtr), "0", app("select", fc.comp(st, "ML", "(Array Ptr Int)"), a.t)))
 			fc.assume("true", app(">=", l, "0"))
+			fr.extMapLenEmpty(u, a.t, l, st) // ext_mapiter.go: a map of length 0 has no entry
 			fc.mapLenWitness(st, u, a.t, l) // len(m) > 0 ==> m has some key (ext_c34.go)
 			return []SV{{t: l, typ: intT}}
 		}
@@ -700,6 +703,9 @@ func (fr *Frame) appendBuiltin(c *ssa.CallCommon, args []SV, st *State, g string
 		addLen = "0"
 	}
 	newLen := fc.define(fr.prefix+"applen", "Int", plus(slen(s.t), addLen))
+	// the result of an append that returns is a slice, so its length is an int (the runtime panics with "len out of range" otherwise; the
+	// operand slices exist simultaneously, so for elements of non-zero size the sum of their lengths cannot reach 2^63 in the first place)
+	fc.assume(g, app("<", newLen, "9223372036854775808"))
 	// result: either in place (capacity suffices) or a fresh block; Go decides by capacity
 	inPlace := app("<=", newLen, scap(s.t))
 	p := fc.alloc(st)
